@@ -40,7 +40,7 @@ func init() {
 		DesignRef: "§4 C14",
 		Rule:      "cases: gen.ImportProgram / gen.ImportCycle (structured file sets rendered in the worker); distinct by sha256 of the rendered files; non-trivial when ≥1 import was inlined and both compilations succeeded with ≥2 objects, or a cyclic set was judged",
 		Chunk:     32,
-		CPUBudget: 10,
+		CPUBudget: 30,
 		Gen:       genC14,
 		Exec:      execC14,
 		Post:      postC14,
